@@ -24,3 +24,8 @@ claim("C18", "model_checking",
       "For CURVE and NOISE_XX in both directions, every case of the stated finite alphabets is executed on two real engines sharing a live session; the receiver must deliver exactly what the sender accepted (or the sender must have refused), heartbeats must be decodable, any tampered stream must yield only a prefix of the sent messages, and two sessions must not produce identical ciphertext.",
       "sizes from the boundary alphabet only; secrecy checked as absence of a payload marker on the wire (not a cryptographic proof); sans-IO engine level — egress ordering of encrypted records in the session actor is exercised by the E3 stack checks",
       "5/C18")
+claim("C19", "model_checking",
+      "E1: explicit-state BFS by re-execution of event timelines (advance/tick/inbound data,PING,PONG,malformed/outbound write) on the real ZmtpEngine under a scripted clock against a heartbeat monitor, for ZMTP/3 NULL, ZMTP/2 and CURVE/NOISE (live partner engine); exhaustive history enumeration on the real EgressBuffer",
+      "All timelines over the event alphabet reach a fixpoint of the canonical state space (waiting, idle time, time since PING, traffic since PING, closed) for three (IVL, TIMEOUT) pairs; in every state the engine's PING/PONG/close decisions must match the monitor. All push/push_priority/advance(k) histories up to depth 5 (6) on the real EgressBuffer must produce a byte stream that is a concatenation of whole chunks with control chunks ahead of unstarted data.",
+      "engine clock stamps are overwritten with the scripted clock after each call; the actor's interval timer wiring and io_uring's tick wiring are outside the engine timelines (see C20); data-but-no-PONG at the deadline is accepted either way",
+      "5/C19")
